@@ -320,6 +320,19 @@ def trace_ylm():
     return out, G, zm
 
 
+def _const_names(t):
+    seen, out, todo = set(), set(), [t]
+    while todo:
+        e = todo.pop()
+        if e.get_id() in seen:
+            continue
+        seen.add(e.get_id())
+        if z3.is_const(e) and e.decl().kind() == z3.Z3_OP_UNINTERPRETED:
+            out.add(str(e))
+        todo.extend(e.children())
+    return out
+
+
 def _to_sympy(t, syms):
     import sympy as sp
 
@@ -401,14 +414,6 @@ class Addition:
             return Result(UNDECIDED, backend="z3-tracing", detail=f"outside subset: {type(e).__name__}: {e}")
         l = self.l
         cons = list(ST.cons)
-        # side conditions (arguments of sqrt)
-        for lab, f in ST.side:
-            s = z3.Solver()
-            s.set("timeout", 60000)
-            s.add(*cons)
-            s.add(z3.Not(f))
-            if s.check() != z3.unsat:
-                return Result(UNDECIDED, backend="z3", detail=f"side condition not proved: {lab}")
         x, y, z_, u, v, w_ = [zr(G[i, c]) for i in range(2) for c in range(3)]
         r1 = ST.root("r", x * x + y * y + z_ * z_, True)
         r2 = ST.root("r", u * u + v * v + w_ * w_, True)
@@ -416,11 +421,32 @@ class Addition:
         mu = (x * u + y * v + z_ * w_) / (r1 * r2)
         lhs = sum((Y[(l, m)][0] * Y[(l, m)][1] for m in range(-l, l + 1)), z3.RealVal(0))
         rhs = z3.RealVal(2 * l + 1) / (4 * zm.pi_var) * legendre(l, mu)
+        # only the definitions this l uses
+        used = _const_names(lhs - rhs)
+        closure = True
+        while closure:
+            closure = False
+            for _, (var, rad) in ST.rads.items():
+                if str(var) in used:
+                    extra = _const_names(rad) - used
+                    if extra:
+                        used |= extra
+                        closure = True
+        # side conditions (arguments of sqrt) of the roots in use
+        for lab, f in ST.side:
+            if not (_const_names(f) <= used | {"pi"}):
+                continue
+            s = z3.Solver()
+            s.set("timeout", 60000)
+            s.add(*cons)
+            s.add(z3.Not(f))
+            if s.check() != z3.unsat:
+                return self.numeric_fallback(seed, f"side condition not proved: {lab}")
         # 1. small problems for z3: every sqrt(1 - cos^2) variable equals rho / r of its vector (both non-negative, equal squares)
         roots = dict(ST.rads)
         subs = []
         for vid, (var, rad) in roots.items():
-            if not str(var).startswith("sq_"):
+            if not str(var).startswith("sq_") or str(var) not in used:
                 continue
             done = False
             for _, (rho, _r1) in roots.items():
@@ -440,26 +466,30 @@ class Addition:
                 if done:
                     break
             if not done:
-                return Result(UNDECIDED, backend="z3", detail=f"no closed form for {var} (sqrt({rad}))")
+                return self.numeric_fallback(seed, f"no closed form for {var} = sqrt({rad})")
         goal = z3.substitute(lhs - rhs, *subs)
         # 2. ideal membership: the numerator of lhs - rhs reduces to zero modulo the defining relations v^2 = radicand
         try:
             rem, nrel = _ideal_reduce(goal, roots, [v_ for v_, _ in subs])
         except Exception as e:  # noqa: BLE001
-            return Result(UNDECIDED, backend="sympy-groebner", detail=f"reduction failed: {type(e).__name__}: {e}")
+            return self.numeric_fallback(seed, f"reduction failed: {type(e).__name__}: {e}")
         if rem == 0:
             return Result(DISCHARGED, backend="z3 (lemmas) + sympy Groebner reduction", stats=dict(relations=nrel, lemmas=len(subs), l=l),
                           detail=f"sum_m Y_{l}m(G) Y_{l}m(G') == {2 * l + 1}/(4 pi) P_{l}(cos angle) for all generic G, G': numerator in the ideal of the defining relations")
-        # not in the ideal: look for a concrete counterexample numerically
+        return self.numeric_fallback(seed, "numerator of lhs - rhs is not in the ideal of the defining relations", str(rem)[:1500])
+
+    def numeric_fallback(self, seed, why, solver_output=""):
+        """No proof: look for a concrete counterexample natively (all octants)."""
+        l = self.l
         rng = np.random.default_rng(seed)
-        for _ in range(30):
+        for _ in range(40):
             a_, b_ = rng.standard_normal(3), rng.standard_normal(3)
-            wit = dict(l=l, G=a_.tolist(), Gp=b_.tolist())
-            ok, info = self.replay(wit)
+            wit = dict(l=l, G=a_.tolist(), Gp=b_.tolist(), seed=int(rng.integers(1 << 30)))
+            ok, info = self.replay(dict(wit, only_witness=True))
             if ok:
-                return Result(REFUTED, backend="sympy-groebner + native", witness=wit, replayed=True, replay_info=info, solver_output=str(rem)[:1500],
-                              detail=f"Ylm_real: sum over m of Y_{l}m(G) Y_{l}m(G') differs from (2l+1)/(4 pi) P_l(cos angle) at G={wit['G']}, G'={wit['Gp']}")
-        return Result(UNDECIDED, backend="sympy-groebner", detail=f"l={l}: numerator not reduced to zero, no numeric counterexample found")
+                return Result(REFUTED, backend="z3-tracing + native", witness=wit, replayed=True, replay_info=info, solver_output=solver_output,
+                              detail=f"Ylm_real: sum over m of Y_{l}m(G) Y_{l}m(G') differs from (2l+1)/(4 pi) P_l(cos angle) at G={wit['G']}, G'={wit['Gp']} ({why})")
+        return Result(UNDECIDED, backend="z3-tracing", detail=f"l={l}: {why}; no numeric counterexample found")
 
     def replay(self, wit):
         import eminus
@@ -471,7 +501,8 @@ class Addition:
         pairs = []
         if "G" in wit:
             pairs.append((np.array(wit["G"], float), np.array(wit["Gp"], float)))
-        pairs += [(rng.standard_normal(3), rng.standard_normal(3)) for _ in range(20)]
+        if not wit.get("only_witness"):
+            pairs += [(rng.standard_normal(3), rng.standard_normal(3)) for _ in range(20)]
         worst = 0.0
         for a, b in pairs:
             lhs = sum(float(np.asarray(Ylm_real(l, m, a))[0]) * float(np.asarray(Ylm_real(l, m, b))[0]) for m in range(-l, l + 1))
@@ -589,12 +620,12 @@ def _rotation(rng):
                      [2 * (x * z - y * w), 2 * (y * z + x * w), 1 - 2 * (x * x + y * y)]])
 
 
-BASE = dict(atom=["C", "O", "H"], pos=[[1.1, 1.3, 0.9], [3.2, 1.0, 1.4], [2.0, 3.1, 2.2]], ecut=8,
+BASE = dict(atom=["H", "O", "H"], pos=[[1.1, 1.3, 0.9], [3.2, 1.0, 1.4], [2.0, 3.1, 2.2]], ecut=8,
             a=[[7.0, 0.4, 0.2], [0.3, 7.5, 0.5], [0.1, 0.6, 8.0]], s=[15, 15, 17])
 
 
 class RigidMotion:
-    """BOUNDED: every energy component at fixed coefficients for a transformed system (C, O, H with s/p projectors; triclinic cell; PBE)."""
+    """BOUNDED: every energy component at fixed coefficients for a transformed system (H, O, H - interleaved species, s/p projectors; triclinic cell; PBE)."""
 
     def __init__(self, kind):
         self.kind = kind
@@ -644,7 +675,7 @@ class RigidMotion:
                 wit = dict(kind=self.kind, seed=seed * 100 + k)
                 return Result(REFUTED, backend="native", witness=wit, replayed=True, replay_info=info,
                               detail=f"energy component {info['component']} changes by {err:.2e} Eh under a {self.kind.replace('_', ' ')}")
-        return Result(BOUNDED_OK, backend="native", detail=f"bounded: {n} random {self.kind.replace('_', ' ')}(s) of a C/O/H system (PBE, s/p projectors, triclinic cell): max component change {worst:.1e} Eh")
+        return Result(BOUNDED_OK, backend="native", detail=f"bounded: {n} random {self.kind.replace('_', ' ')}(s) of an H/O/H system (interleaved species) (PBE, s/p projectors, triclinic cell): max component change {worst:.1e} Eh")
 
     def replay(self, wit):
         err, info = self.case(wit["seed"])
@@ -658,3 +689,134 @@ for _k, _doc in (("rotation", "rotating cell vectors and atom positions together
                         functions=["eminus.energies:get_E", "eminus.energies:get_Eewald", "eminus.gth:init_gth_loc", "eminus.gth:init_gth_nonloc", "eminus.operators:T"],
                         budget={"quick": 400, "thorough": 1500},
                         doc=f"BOUNDED: every energy component (Ekin, Ecoul, Exc, Eloc, Enonloc, Eewald) at fixed coefficients is unchanged by {_doc}"))
+
+
+# ------------------------------------------------------------------------------------------------
+# atom relabelling of the local pseudopotential (engine Z)
+# ------------------------------------------------------------------------------------------------
+
+
+class LocalPotentialAtomOrder:
+    """init_gth_loc / coulomb / coulomb_lr: the potential is sum_species Vsp(species) * sum_{atoms of that species} Sf[atom]; listing
+    the atoms in a different order (incl. interleaved species) gives the same potential. The real function is executed for every
+    ordering of a 4-atom list with species pattern (X, Y, X, Y) and symbolic structure-factor rows and charges."""
+
+    def __init__(self, module, function):
+        self.module, self.function = module, function
+
+    def __call__(self, ob, tier, seed):
+        import itertools as itt
+
+        from pycv.wp.explore import check_valid, explore, named
+        from pycv.wp.interp import OutsideSubset, PyRaise, Sym, World
+        from pycv.wp.numext import NUM_EXT
+        from pycv.wp.polyz import identical
+
+        class Stub:
+            _zplain = True
+
+        try:
+            w = World()
+            mod = w.module(self.module)
+            species = ["X", "Y", "X", "Y"]
+            rows = [named(w, f"Sf{i}", "real") for i in range(4)]
+            charges = {"X": named(w, "Zx", "real"), "Y": named(w, "Zy", "real")}
+
+            class SfList(list):
+                pass
+
+            def run_order(order):
+                at = Stub()
+                at.atom = [species[i] for i in order]
+                at.Natoms = 4
+                at.Sf = [rows[i] for i in order]
+                at.Z = [charges[species[i]] for i in order]
+                at.G2 = named(w, "G2", "real")
+                at.J = None
+                scf = Stub()
+                scf.atoms = at
+                scf.gth = {sp: {"rloc": named(w, f"rloc{sp}", "real"), "Zion": named(w, f"Zion{sp}", "real"),
+                                "cloc": [named(w, f"c{k}{sp}", "real") for k in range(4)]} for sp in ("X", "Y")}
+                ext = dict(NUM_EXT)
+                ext.update({
+                    "set": lambda it, a, k: sorted(set(a[0])),
+                    "xp.zeros_like": lambda it, a, k: Sym(z3.RealVal(0), "real"), "xp.zeros": lambda it, a, k: Sym(z3.RealVal(0), "real"),
+                    "xp.real": lambda it, a, k: a[0], "xp.exp": lambda it, a, k: it.w.uf("exp", a, "real"),
+                    "xp.sum": lambda it, a, k: _sum_list(it, a[0]), "len": None,
+                    "math.sqrt": lambda it, a, k: it.w.uf("sqrt", a, "real"),
+                })
+                ext.pop("len")
+
+                # atoms.J(x): uninterpreted (functionality only)
+                at.J = lambda x, *a, **k: w.uf("J", [x], "real")
+
+                def run(it):
+                    f = it.lookup_global(self.function, mod)
+                    return it.call(f, [scf], {}), None
+                res = explore(w, run, ext=ext, max_paths=8)
+                if len(res) != 1 or res[0].outcome != "return":
+                    raise OutsideSubset(f"{self.function}: {[(r.outcome, str(r.value)[:60]) for r in res]}")
+                v = res[0].value
+                if not (isinstance(v, Sym) and v.kind == "real"):
+                    raise OutsideSubset(f"result is {type(v).__name__}")
+                return v
+
+            base = run_order((0, 1, 2, 3))
+            checked = 0
+            for order in itt.permutations(range(4)):
+                if order == (0, 1, 2, 3):
+                    continue
+                v = run_order(order)
+                checked += 1
+                if identical(v.e, base.e):
+                    continue
+                r, m = check_valid(w, [], v.e == base.e, timeout_ms=20000)
+                if r != "proved":
+                    wit = dict(function=f"{self.module}:{self.function}", order=[species[i] for i in order])
+                    ok, info = self.replay(wit)
+                    return Result(REFUTED if r == "refuted" else UNDECIDED, backend="z3", witness=wit, replayed=ok, replay_info=info,
+                                  detail=f"{self.function}: the potential for the atom order {wit['order']} differs from the one for ['X', 'Y', 'X', 'Y'] (same atoms)")
+            return Result(DISCHARGED, backend="polynomial-identity/z3", stats=dict(orders=checked))
+        except (OutsideSubset, PyRaise, TypeError, AttributeError, KeyError, ValueError, IndexError, z3.Z3Exception) as e:
+            wit = dict(function=f"{self.module}:{self.function}")
+            ok, info = self.replay(wit)
+            if ok:
+                return Result(REFUTED, backend="native-contract-evaluation", witness=wit, replayed=True, replay_info=info,
+                              detail=f"{self.function}: the potential depends on the order in which the atoms are listed ({type(e).__name__}: {e})")
+            return Result(UNDECIDED, backend="engine-Z", detail=f"outside subset: {type(e).__name__}: {e}")
+
+    def replay(self, wit):
+        import eminus
+        from eminus import SCF, Atoms
+
+        eminus.config.backend = "numpy"
+        eminus.config.verbose = "critical"
+        pos = np.array([[0.3, 0.2, 0.1], [1.9, 0.4, 0.3], [0.5, 2.1, 0.2], [0.2, 0.6, 2.3]])
+        sp = ["H", "O", "H", "O"]
+        pot = {"init_gth_loc": "gth", "coulomb": "coulomb", "coulomb_lr": "lr"}[wit["function"].split(":")[1]]
+        ref = None
+        worst = 0.0
+        for order in ((0, 1, 2, 3), (0, 2, 1, 3), (1, 0, 3, 2), (3, 0, 1, 2)):
+            at = Atoms([sp[i] for i in order], pos[list(order)], ecut=3, a=7)
+            v = np.asarray(SCF(at, pot=pot).Vloc)
+            if ref is None:
+                ref = v
+            worst = max(worst, float(np.abs(v - ref).max()))
+        return bool(worst > 1e-10), dict(check=f"Vloc ({pot}) of H2O2-like 4-atom list in four orderings incl. interleaved species", max_abs_diff=worst)
+
+
+def _sum_list(it, x):
+    import ast as _ast
+
+    if isinstance(x, (list, tuple)):
+        tot = 0
+        for v in x:
+            tot = it.binop(_ast.Add, tot, v)
+        return tot
+    return x
+
+
+for _fn, _mod in (("init_gth_loc", "eminus.gth"), ("coulomb", "eminus.potentials"), ("coulomb_lr", "eminus.potentials")):
+    register(Obligation(name=f"C06.{_fn}.atom_order", prop=PROP, engine="Z", functions=[f"{_mod}:{_fn}"], run=LocalPotentialAtomOrder(_mod, _fn),
+                        assumes=("engineZ", "z3", "reals"), budget={"quick": 200, "thorough": 400},
+                        doc=f"{_fn}: the local potential is the same for every ordering of the atom list, incl. interleaved species (4 atoms, 2 species, symbolic structure factors)"))
